@@ -345,12 +345,34 @@ pub fn random_auxpow(coin: &str, rng: &mut Rng, sh: &TxShape) -> AuxPowDesc {
         s.extend(rng.bytes(tail));
         cb.inputs[0].script_sig = Bytes(s);
     }
+    // parent coinbase "of any shape": also without any input (only expressible in the extended form) or
+    // without any output
+    if rng.chance(1, 8) {
+        cb.segwit = true;
+        cb.inputs.clear();
+    }
+    if rng.chance(1, 12) {
+        cb.outputs.clear();
+    }
+    // the parent block header: random bytes, or a header whose version field looks like a merged-mined
+    // chain's own (chain id << 16 | 0x100 | n) — incl. this coin's chain id — or like a plain/BIP9 version
+    let mut ph = rng.bytes(80);
+    if rng.chance(1, 2) {
+        let id = *rng.pick(&[0x0001u32, 0x0062, 0x005a, 0x0002, 0x0008, 0x1000]);
+        let v: u32 = match rng.below(4) {
+            0 => (id << 16) | 0x100 | rng.range(1, 4) as u32,
+            1 => (id << 16) | rng.range(0, 0xffff) as u32,
+            2 => 0x2000_0000 | (rng.next() as u32 & 0x1fff_ffff),
+            _ => rng.range(1, 4) as u32,
+        };
+        ph[..4].copy_from_slice(&v.to_le_bytes());
+    }
     AuxPowDesc {
         coinbase_tx: cb,
         parent_hash: Bytes(rng.bytes(32)),
         coinbase_branch: branch(rng),
         chain_branch: branch(rng),
-        parent_header: Bytes(rng.bytes(80)),
+        parent_header: Bytes(ph),
     }
 }
 
